@@ -39,6 +39,11 @@ pub fn __abs_par_drain_into(payoffs: &mut PayoffMap, queue: &mut Vec<Item>)
     ensures final(queue)@.len() == 0,
 { unimplemented!() }
 
+// ghost flag: the cached chance draws of this iteration have been reset (a fresh draw next pass)
+pub struct Draws { pub rearmed: Ghost<bool> }
+#[verifier::external_body] pub fn __draws_of_this_pass() -> (d: Draws) ensures !d.rearmed@ { unimplemented!() }
+#[verifier::external_body] pub fn __abs_rearm_chance_draws(d: &mut Draws) ensures final(d).rearmed@ { unimplemented!() }
+
 #[verifier::external_body] pub struct Tgt { }
 impl Tgt { #[verifier::external_body] pub fn get(&self) -> usize { unimplemented!() } }
 
@@ -52,6 +57,8 @@ pub fn solve_generic_multi__scope_body(iter: u64, target: Tgt)
 invariant
     queue@.len() == 0, work@.len() == 0, map_len(&payoffs) == 0, // @ob C06.V.solve_generic_multi.workspace_fresh
 {
+let mut __draws = __draws_of_this_pass();
+
             // compute threadding threshold
             
             __abs_thread_threshold(&mut queue, &mut work); // @ob C06.V.workspace_fresh.frontier
@@ -63,11 +70,13 @@ invariant
             // the frontier and cached payoffs only describe this iteration
             work.clear();
             payoffs.clear();
-            
+            __abs_rearm_chance_draws(&mut __draws);
             
             
             if __abs_stop() { break; }
-        }
+        
+proof { assert(__draws.rearmed@); } // @ob C10.V.solve_generic_multi.fresh_draw_next_pass
+}
     }
 
 #[verifier::external_body] pub fn __abs_stop() -> bool { unimplemented!() }
